@@ -437,7 +437,9 @@ POLYC_ARGS = [
     ("''", 6, 60, 60, ""), ("'a'", 6, 61, 61, "a"),
     ("nil", 7, 70, 70, "nil"),
     ("0.0", 2, 20, 20, "0.0"), ("-0.0", 2, 21, 20, "-0.0"), ("1.5", 2, 22, 22, "1.5"),
+    ("(0.0/0.0)", 2, 23, 23, "nan"),      # NaN: the text is what the interpreter prints (set by the check); a ~= a
 ]
+NAN_ARG = 10
 
 
 def polyc_program(calls):
